@@ -13,11 +13,6 @@ open Jesse Jesse.Eng PrefixLemmas
 
 variable {M : Type} [Inhabited M] (u : UserStrategy M)
 
-theorem foldl_ext' {α β} (f g : β → α → β) (l : List α) (b : β) (h : ∀ x y, f x y = g x y) :
-    l.foldl f b = l.foldl g b := by
-  have : f = g := by funext x y; exact h x y
-  rw [this]
-
 /-- per symbol: iteration `i` only reads rows `i-1` and `i` and the window ending at `i` -/
 theorem symStep_prefix (fuel i n : Nat) (hi : i < n) (e : Engine M) (a b : List (List Candle)) (hab : Agree n a b)
     (sym : Nat) :
